@@ -28,6 +28,7 @@ import (
 	"fmt"
 	"reflect"
 	"runtime"
+	"sync/atomic"
 	"testing"
 	"time"
 
@@ -36,14 +37,48 @@ import (
 	"github.com/zeromicro/go-zero/core/logx"
 )
 
-type vfTicker struct{ c chan time.Time }
+type vfTicker struct {
+	c    chan time.Time
+	slow atomic.Bool
+}
 
-func (t *vfTicker) Chan() <-chan time.Time { return t.c }
+// Chan is called by the wheel's loop every time it comes back to its select. With slow set the loop dawdles
+// here (a legal schedule: the wheel goroutine is merely descheduled for a moment), so that the requests other
+// goroutines have for the wheel pile up and the select chooses among them. No verdict depends on the pause.
+func (t *vfTicker) Chan() <-chan time.Time {
+	if t.slow.Load() {
+		for i := 0; i < 10; i++ {
+			runtime.Gosched()
+		}
+		time.Sleep(100 * time.Microsecond)
+	}
+	return t.c
+}
 func (t *vfTicker) Stop()                  {}
 
 // vfGoroutines is the number of goroutines expected while nothing of the case
 // under way is running (each Cache leaves its statLoop goroutine behind).
 var vfGoroutines int
+
+// vfCalibrated: the baseline is taken inside the first case, not before the first kit.Run: the toolkit may start
+// service goroutines of its own when the first case is armed (the stuck-case detector does), and those stay.
+var vfCalibrated bool
+
+func vfCalibrate() {
+	if vfCalibrated {
+		return
+	}
+	vfCalibrated = true
+	n := runtime.NumGoroutine()
+	for i := 0; i < 50; i++ { // a goroutine count that stays the same over a few yields
+		runtime.Gosched()
+		time.Sleep(200 * time.Microsecond)
+		if m := runtime.NumGoroutine(); m != n {
+			n, i = m, 0
+		}
+	}
+	vfGoroutines = n
+}
 
 func vfQuiesce(target int) bool {
 	for i := 0; i < 2000000; i++ {
@@ -251,6 +286,7 @@ func (cr *vfCacheRun) tick() {
 var vfErrLoad = errors.New("c16: loader failed")
 
 func vfCacheHistory(c *kit.Case, r *kit.Rand, sample bool) {
+	vfCalibrate()
 	if !vfQuiesce(vfGoroutines) {
 		c.Inconclusive("goroutine count did not return to the expected baseline before the case")
 		vfGoroutines = runtime.NumGoroutine()
@@ -673,5 +709,6 @@ func TestVerifC16W(t *testing.T) {
 		}
 		c.Evals(sb)
 	})
+	vfExtFamilies(t)
 	kit.End()
 }
